@@ -558,6 +558,7 @@ pub fn value_text() -> BoxedStrategy<String> {
         3 => proptest::collection::vec(proptest::sample::select(VALUE_ALPHABET.to_vec()), 0..8).prop_map(|v| v.concat()),
         2 => "[a-zA-Z0-9]{0,12}",
         2 => "\\PC{0,40}",
+        1 => ("[a-z\",;\\\\ é]{1,6}", 50usize..2000).prop_map(|(u, n)| u.repeat(n / 4)),
         1 => "[\"\\\\,;<>= \\n\\ra1]{0,40}",
         // control characters (C0, DEL, C1) and code points whose low byte is a quote / backslash
         1 => "[\\x00\\x01\\x07\\x1B\\x7F\u{80}\u{85}\u{9F}\u{122}\u{15C}\u{1F422}a\" ]{0,12}",
